@@ -26,13 +26,47 @@ const expTolerance = 100000
 
 // newNumber hands the text over in a buffer that is overwritten straight afterwards, the way a caller
 // with one token buffer does: a Number denotes the text it was made from, not what the buffer holds later
+// newNumber hands the library the literal as a part of a longer text (as a lexeme of a document is): the
+// slice reaches, by its capacity, to the end of that text. Afterwards the literal's own bytes are overwritten
+// (the number must not live in the caller's buffer); surroundings() tells whether the text around the literal
+// is still what it was (the library only reads what it is given).
 func newNumber(s string) (n *jjson.Number, err error, esc *sut.Escape) {
-	buf := []byte(s)
-	esc = sut.Trap("NewNumber", func() { n, err = jjson.NewNumber(jbytes.NewBytes(buf)) })
-	for i := range buf {
-		buf[i] = '7'
+	const head, tail = "[", `,"ab",true,1E+5]  `
+	buf := []byte(head + s + tail)
+	lit := buf[len(head) : len(head)+len(s)]
+	esc = sut.Trap("NewNumber", func() { n, err = jjson.NewNumber(jbytes.NewBytes(lit)) })
+	if string(buf) != head+s+tail && lastDamage == "" {
+		lastDamage = fmt.Sprintf("NewNumber(%q) given as a part of the text %q left the text as %q", s, head+s+tail, buf)
 	}
+	for i := range lit {
+		lit[i] = '7'
+	}
+	held = append(held[:0], heldBuf{buf: buf, want: head + strings.Repeat("7", len(s)) + tail, lit: s})
 	return
+}
+
+type heldBuf struct {
+	buf  []byte
+	want string
+	lit  string
+}
+
+var (
+	lastDamage string
+	held       []heldBuf
+)
+
+// damage reports (once) a write into the text around a literal, at creation or by a later method call
+func damage() string {
+	d := lastDamage
+	lastDamage = ""
+	for _, h := range held {
+		if string(h.buf) != h.want && d == "" {
+			d = fmt.Sprintf("methods of NewNumber(%q) wrote into the text the literal was a part of: %q", h.lit, h.buf)
+		}
+	}
+	held = held[:0]
+	return d
 }
 
 var digit19 = regexp.MustCompile(`[1-9]+`)
@@ -120,6 +154,9 @@ func single(s string) *ev.Verdict {
 	}
 	if !eq {
 		return ev.V("cmp:reflexive", "NewNumber(%q) is not equal to itself", s)
+	}
+	if d := damage(); d != "" {
+		return ev.V("writes-into-callers-text", "%s", d)
 	}
 	return nil
 }
